@@ -425,6 +425,8 @@ def rich_value(rng, t, hint, consts):
             names = getattr(getattr(consts, cls, None), 'names', None)
             if hint == nm and names:
                 return rng.choice(sorted(names))
+        if INT_POLICY:
+            return INT_POLICY(t, hint)          # battles with extreme field values keep them in the updates, too
         return rng.randint(0, hi)
     if k == 'f32':
         return {'f32': rng.choice(_F32)}
